@@ -546,7 +546,7 @@ func coreForms() []form {
 		}},
 		{"style-static+obj", func(x string) []Attr {
 			return []Attr{st("style", "color: blue; padding: 1px; font-size: 9px"), {Kind: "vobj", Name: "style", Pairs: []Pair{
-				{Key: "color", Src: "path", Arg: x}, {Key: "fontSize", Src: "str", Arg: "12px"}, {Key: "--x", Q: true, Src: "path", Arg: x}, {Key: "borderTopWidth", Src: "num", Arg: "2"}}}}
+				{Key: "color", Src: "path", Arg: x}, {Key: "fontSize", Src: "str", Arg: "12px"}, {Key: "--x", Q: true, Src: "path", Arg: x}, {Key: "borderTopWidth", Src: "num", Arg: "2"}, {Key: "--myVar", Q: true, Src: "str", Arg: "7"}}}}
 		}},
 		{"style-obj+static", func(x string) []Attr {
 			return []Attr{{Kind: "obj", Name: "style", Pairs: []Pair{{Key: "backgroundColor", Src: "path", Arg: x}, {Key: "width", Src: "str", Arg: "1px"}}}, st("style", "width:3px;background-color:blue;")}
